@@ -259,7 +259,7 @@ Qed.
 Theorem rule_check_ok inp : Forall (rule_res_ok inp) (rule_check inp).
 Proof.
   unfold rule_check. destruct (fit_rules (i_fit inp)) as [|rf rfs] eqn:E.
-  - constructor; [exact I|]. constructor; [exact I|constructor].
+  - destruct (_ && _); (constructor; [exact I|constructor]).
   - apply cascade_Forall; [exact I|]. constructor; [apply fix_orphan_ok|].
     apply Forall_forall. intros s Hs. apply in_map_iff in Hs as (rf' & <- & _). apply fix_rule_peer_ok.
 Qed.
@@ -273,11 +273,21 @@ Qed.
 
 Definition any_res_ok (inp : input) (x : res) : Prop := replica_res_ok inp x \/ rule_res_ok inp x.
 
+Lemma merge_stage_ok inp : Forall (any_res_ok inp) (merge_stage inp).
+Proof.
+  unfold merge_stage. destruct (merge_ready inp); [|constructor; [left; exact I|constructor]].
+  destruct (merge_target inp) as [t|]; [|constructor; [left; exact I|constructor]].
+  destruct (_ <? _); [constructor; [left; exact I|constructor]|].
+  destruct (_ || _); [constructor; [left; exact I|constructor]|].
+  destruct (region_match _ _); repeat (constructor; try (left; exact I)).
+Qed.
+
 Theorem controller_check_ok inp : Forall (any_res_ok inp) (controller_check inp).
 Proof.
   unfold controller_check. apply then_Forall.
   - unfold joint_stage. destruct (_ && _); (constructor; [left; exact I|constructor]).
-  - destruct (rules_enabled (i_cfg inp)).
+  - apply then_Forall; [|apply merge_stage_ok].
+    destruct (rules_enabled (i_cfg inp)).
     + eapply Forall_impl; [|apply rule_check_ok]. intros x Hx; right; exact Hx.
     + apply then_Forall.
       * unfold learner_stage. destruct (filter _ _); [constructor; [left; exact I|constructor]|].
@@ -327,6 +337,75 @@ Theorem controller_removes_only_justified inp st s :
 Proof.
   intros H. pose proof (controller_check_ok inp) as F. rewrite Forall_forall in F. specialize (F _ H).
   destruct F as [F|F]; cbn in F; tauto.
+Qed.
+
+(* a merge is proposed only when the merge checker is active, the region is small, healthy, fully replicated and not hot, the
+   chosen neighbour is adjacent / mergeable, healthy, fully replicated, not hot and not too large, neither is in a joint state,
+   and no checker in front of it had anything to repair (each of them admits "no operator") *)
+Lemma then_in_some a b x : In (Some x) (then_ a b) -> In (Some x) a \/ (In None a /\ In (Some x) b).
+Proof.
+  unfold then_. intros H. apply in_flat_map in H as (y & Hy & H). destruct y as [y|].
+  - cbn in H. destruct H as [H|[]]. left. rewrite <- H. exact Hy.
+  - right. split; assumption.
+Qed.
+
+Lemma merge_stage_some inp o :
+  In (Some (StMerge, o)) (merge_stage inp) ->
+  merge_ready inp = true /\ exists t, merge_target inp = Some t /\ n_size t <= max_target_region_size
+    /\ in_joint (peers (i_region inp)) = false /\ in_joint (n_peers t) = false.
+Proof.
+  unfold merge_stage. destruct (merge_ready inp); [|cbn; intros [H|[]]; discriminate].
+  destruct (merge_target inp) as [t|]; [|cbn; intros [H|[]]; discriminate].
+  destruct (max_target_region_size <? n_size t) eqn:E1; [cbn; intros [H|[]]; discriminate|].
+  destruct (in_joint (peers (i_region inp)) || in_joint (n_peers t)) eqn:E2; [cbn; intros [H|[]]; discriminate|].
+  intros _. split; [reflexivity|]. exists t. apply orb_false_iff in E2 as [J1 J2]. apply Z.ltb_ge in E1.
+  repeat split; assumption.
+Qed.
+
+Lemma merge_target_ok_in inp t : merge_target inp = Some t -> merge_target_ok inp t = true.
+Proof.
+  unfold merge_target.
+  set (t1 := match me_next (i_menv inp) with
+             | Some n => if merge_target_ok inp n then Some n else None
+             | None => None end).
+  assert (T1 : forall x, t1 = Some x -> merge_target_ok inp x = true).
+  { unfold t1. intros x. destruct (me_next (i_menv inp)) as [n|]; [|discriminate].
+    destruct (merge_target_ok inp n) eqn:E; [|discriminate]. intros H; inversion H; subst; exact E. }
+  destruct (me_prev (i_menv inp)) as [p|]; [|apply T1].
+  destruct (negb (me_one_way (i_menv inp)) && merge_target_ok inp p) eqn:Ep; [|apply T1].
+  apply andb_true_iff in Ep as [_ Ep].
+  destruct t1 as [x|] eqn:Et.
+  - destruct (me_next (i_menv inp)) as [n|].
+    + destruct (n_size p <? n_size n); intros H; inversion H; subst; [exact Ep|apply T1; reflexivity].
+    + intros H; inversion H; subst; exact Ep.
+  - intros H; inversion H; subst; exact Ep.
+Qed.
+
+Definition front_check (inp : input) : list res :=
+  if rules_enabled (i_cfg inp) then rule_check inp else then_ (learner_stage inp) (replica_check inp).
+
+(* where an operator of CheckRegion comes from: the merge checker speaks only when the joint-state checker AND the repair
+   checkers in front of it allow "no operator" *)
+Theorem controller_origin inp x :
+  In (Some x) (controller_check inp) ->
+  In (Some x) (joint_stage inp)
+  \/ (In None (joint_stage inp) /\ (In (Some x) (front_check inp) \/ (In None (front_check inp) /\ In (Some x) (merge_stage inp)))).
+Proof.
+  unfold controller_check. intros H. apply then_in_some in H as [H|[HN H]]; [left; exact H|right].
+  split; [exact HN|]. apply then_in_some in H as [H|[HN2 H]]; [left; exact H|right; split; assumption].
+Qed.
+
+Theorem merge_only_when_settled inp o :
+  In (Some (StMerge, o)) (merge_stage inp) ->
+  me_on (i_menv inp) = true /\ region_healthy inp = true /\ region_replicated inp = true /\ me_hot (i_menv inp) = false
+  /\ exists t, merge_target inp = Some t /\ merge_target_ok inp t = true /\ n_size t <= max_target_region_size
+     /\ in_joint (peers (i_region inp)) = false /\ in_joint (n_peers t) = false.
+Proof.
+  intros H. apply merge_stage_some in H as (R & t & Ht & Hs & J1 & J2).
+  unfold merge_ready in R. repeat (apply andb_true_iff in R as [R ?]).
+  repeat split; try assumption.
+  - apply negb_true_iff. assumption.
+  - exists t. repeat split; try assumption. apply merge_target_ok_in. exact Ht.
 Qed.
 
 (* the replica checker proposes nothing but add / remove / replace of a region store *)
@@ -421,7 +500,7 @@ Definition ex_input : input :=
   Input (Config 3 [1] 1 true true true true true false true)
         [ex_store 1 10; ex_store 2 11; ex_store 3 10; ex_store 4 12]
         (Region [Peer 101 1 Voter; Peer 102 2 Voter] (Some (Peer 101 1 Voter)) [] [])
-        (Fit [] []) EReplica.
+        (Fit [] []) EReplica (MEnv false 0 false false false false None None).
 Example repair_example :
   repair_required ex_input = true /\ replica_check ex_input = [Some (StMakeUp, AAdd 4 false)].
 Proof. split; vm_compute; reflexivity. Qed.
